@@ -112,7 +112,24 @@ def load_findings():
     return []
 
 
+class CaseTimeout(Exception):
+    pass
+
+
 def safe_impl(prop, req):
+    """One case on the implementation, under a watchdog: a case that does not come back within minutes (a real
+    deadlock or an endless loop in the code under test, or in the harness) is an internal failure of that case, not
+    a check that never ends."""
+    import signal
+
+    def on_alarm(signum, frame):
+        raise CaseTimeout("the case did not finish within 240 s")
+    old = None
+    try:
+        old = signal.signal(signal.SIGALRM, on_alarm)
+        signal.alarm(240)
+    except (ValueError, AttributeError):
+        old = None
     try:
         return prop.impl(req)
     except BaseException as e:  # noqa
@@ -120,6 +137,10 @@ def safe_impl(prop, req):
             raise
         return {"harness_crash": type(e).__name__, "msg": str(e)[:200],
                 "tb": traceback.format_exc()[-600:]}
+    finally:
+        if old is not None:
+            signal.alarm(0)
+            signal.signal(signal.SIGALRM, old)
 
 
 def write_replay(prop, name, payload):
